@@ -49,13 +49,32 @@ func wgOperand(v ssa.Value) wgRef {
 	case *ssa.UnOp:
 		switch y := x.X.(type) {
 		case *ssa.Alloc:
+			// a parameter spilled into a cell because a closure captures it: the group is the parameter's
+			if p, ok := soleStore(y).(*ssa.Parameter); ok {
+				if _, bound := paramBinding[p]; bound {
+					return wgOperand(p)
+				}
+			}
 			return wgRef{name: y.Comment}
 		case *ssa.FreeVar:
+			if cell := capturedCell(y); cell != nil {
+				if p, ok := soleStore(cell).(*ssa.Parameter); ok {
+					if _, bound := paramBinding[p]; bound {
+						return wgOperand(p)
+					}
+				}
+			}
 			return wgRef{name: y.Name()}
 		}
 	case *ssa.Alloc:
 		return wgRef{name: x.Comment}
 	case *ssa.Parameter:
+		// the group handed to a single-call-site helper is the caller's group
+		if arg, ok := paramBinding[x]; ok {
+			if w := wgOperand(arg); w.field != nil || w.name != "" {
+				return w
+			}
+		}
 		return wgRef{name: x.Name()}
 	case *ssa.FreeVar:
 		return wgRef{name: x.Name()}
@@ -84,8 +103,13 @@ func deferredDone(fn *ssa.Function) (wgRef, bool) {
 			out, found = w, true
 			return
 		}
+		var clo *ssa.Function
 		if mc, ok := d.Call.Value.(*ssa.MakeClosure); ok {
-			clo := mc.Fn.(*ssa.Function)
+			clo = mc.Fn.(*ssa.Function)
+		} else if sc := d.Call.StaticCallee(); sc != nil && len(sc.Blocks) > 0 && isRepoFn(sc) {
+			clo = sc // a deferred method/function of the repo (a closure turned into a method)
+		}
+		if clo != nil {
 			// Done must be on every path of the deferred closure
 			var doneW wgRef
 			has := false
@@ -137,7 +161,7 @@ func c05R3(c *Ctx) {
 				return
 			}
 			body := callees[0]
-			if why, ok := c05UnaccountedGo[c.fnName(body)]; ok {
+			if why, ok := c.tabledS(c05UnaccountedGo, body, ""); ok {
 				c.ok(rule, key, c.instrPos(goI), "tabled: "+why, false)
 				return
 			}
